@@ -82,6 +82,34 @@ func checkWriteCase(c writeCase) (string, bool) {
 			return fmt.Sprintf("io.Copy into the hash from a reader of mode %d (0 whole, 1 pieces, 2 single bytes, 3 last piece with io.EOF) gives %#04x, a single Write %#04x", mode, got, want), false
 		}
 	}
+	// Optional writer interfaces: io.WriteString uses a WriteString method of
+	// the destination when it has one, and a hash may also offer WriteByte.
+	// Whatever the hash implements must agree with Write. The data is fed as
+	// a Go string (valid UTF-8 or not: a string is a byte sequence).
+	h5 := dyncrc16.New()
+	prev = 0
+	for _, cut := range append(append([]int{}, c.Cuts...), len(data)) {
+		if cut < prev || cut > len(data) {
+			continue
+		}
+		if n, err := io.WriteString(h5, string(data[prev:cut])); err != nil || n != cut-prev {
+			return fmt.Sprintf("io.WriteString into the hash returned (%d, %v) for %d bytes", n, err, cut-prev), false
+		}
+		prev = cut
+	}
+	if got := h5.Sum16(); got != want {
+		return fmt.Sprintf("io.WriteString of the data (as strings cut at %v) gives %#04x, Write gives %#04x", c.Cuts, got, want), false
+	}
+	if bw, ok := dyncrc16.New().(io.ByteWriter); ok {
+		for _, b := range data {
+			if err := bw.WriteByte(b); err != nil {
+				return fmt.Sprintf("WriteByte returned %v", err), false
+			}
+		}
+		if got := bw.(dyncrc16.Hash16).Sum16(); got != want {
+			return fmt.Sprintf("WriteByte for every byte gives %#04x, Write gives %#04x", got, want), false
+		}
+	}
 	// Reset after an arbitrary prefix returns to the initial state.
 	p := c.Reset
 	if p < 0 || p > len(data) {
@@ -387,6 +415,11 @@ func TestC14(t *testing.T) {
 		// Generated: byte strings x write partitions.
 		hx.RapidCheck(t, rec, "partitions", func(rt *rapid.T, fail func(string, string, any)) {
 			data := rapid.SliceOfN(rapid.Byte(), 0, 5000).Draw(rt, "data")
+			if rapid.IntRange(0, 4).Draw(rt, "text") == 0 {
+				// text with multi-byte characters (file names, product names)
+				data = []byte(rapid.StringN(0, 200, -1).Draw(rt, "textdata"))
+				rec.Class("data is UTF-8 text", 1)
+			}
 			if rapid.IntRange(0, 9).Draw(rt, "small") < 6 && len(data) > 40 {
 				data = data[:rapid.IntRange(0, 40).Draw(rt, "len")]
 			}
